@@ -129,6 +129,8 @@ class Desc:
             self._go(t[1])
         elif tag == "gen" and len(t) == 2:
             self._go(t[1])
+        elif tag == "rng" and len(t) == 3 and circ.range_expr(t) is None:
+            self._go(t[2])   # a site-stamped `for` loop over a collection / adaptor chain
         elif tag == "rev":
             if self.take is not None or self.enum:
                 self.other = True   # rev after take/enumerate changes which positions are meant
@@ -195,11 +197,19 @@ class Nest:
     def var_for(self, it):
         """variable of the nest loop that iterates `it` (a range, or a collection streamed by that loop — alone or zipped with
         others: the loop's own domain applies, e.g. the common length of a zip); None when no loop of this nest does"""
+        site = None
+        orig = it
+        if isinstance(it, tuple) and len(it) == 3 and it[0] == "rng" and circ.range_expr(it) is None:
+            site, it = it[1], it[2]     # element of the `for` loop whose into_iter was stamped with this site: only that loop matches
         base = strip_adaptors(it)
         gen = it[1] if (isinstance(it, tuple) and len(it) == 2 and it[0] == "gen") else None
         for k in range(len(self.loops) - 1, -1, -1):
             d = self.desc[k]
             if self.doms[k] is None:
+                continue
+            lk = self.loops[k]
+            lsite = lk[1] if (isinstance(lk, tuple) and len(lk) == 3 and lk[0] == "rng" and circ.range_expr(lk) is None) else None
+            if site is not None and lsite != site:
                 continue
             if gen is not None:
                 if gen in d.maps:
@@ -208,7 +218,7 @@ class Nest:
             if self.loops[k] == it or d.it == it or (base in d.colls and _takes(it) == d.take):
                 return self.var(k)
         if self.fallback is not None:
-            fv = self.fallback.var_for(it)
+            fv = self.fallback.var_for(orig)
             if fv is not None:
                 return ("lv", fv[1], fv[2], 0)
         return None
